@@ -246,7 +246,7 @@ impl Engine for AccessSim {
     fn runs(&self, tier: Tier) -> u64 {
         match tier {
             Tier::Quick => 80_000,
-            Tier::Thorough => 2_000_000,
+            Tier::Thorough => 10_000_000,
         }
     }
     fn heartbeat(&self) -> u64 {
